@@ -18,6 +18,12 @@ THEOREMS = [
     "Mesa.Batch.C13_rows_from_one_collection",
     "Mesa.Batch.C13_last_state_reported",
     "Mesa.Batch.C13_reported_collections",
+    "Mesa.Batch.C13_iterations_reiterable",
+    "Mesa.Batch.C13_oneshot_parameters",
+    "Mesa.Batch.C13_parallel_rows_by_run",
+    "Mesa.Batch.C13_degenerate_limits",
+    "Mesa.Batch.C13_run_rows_exact",
+    "Mesa.Batch.C13_batch_run_exact",
 ]
 COUNTS = {"quick": 1500, "thorough": 30000}
 TRUSTED = [
@@ -28,14 +34,16 @@ TRUSTED = [
 ]
 ASSUMPTIONS = [
     "parameter names, reporter names and the fixed keys RunId/iteration/Step/AgentID are pairwise distinct (a clash silently overwrites a dict key)",
-    "parameter values are re-iterable (batch_run re-reads `parameters` once per iteration: a one-shot iterator is exhausted after the first)",
+    "the design clause is judged for re-iterable parameter values; with a one-shot iterator (generator, iter(...)) batch_run re-reads `parameters` once per iteration and finds it spent after the first: the runs of iteration 0 are judged, the missing replications are outside the quantifier (modelled: C13_oneshot_parameters)",
+    "reporters that raise inside a collect the scripted model swallows are outside the quantifier: the row clauses are not judged for such runs (the rows are still tied to the model)",
     "the alignment clause is judged for models that collect at most once per step value (the quantifier: at construction and/or inside step); others are still tied to the model",
 ]
 RULE = ("random scripted model classes (constructor / step bodies of DataCollector ops with int positions fed from kwargs; collect at construction "
         "and/or inside step, before or after the mutations; early stop via a stop step; 0-3 agents created per run, agents created / removed while "
-        "stepping; with and without agent reporters) x random parameter dicts (0-3 parameters: scalars incl. None and floats, strings, lists / tuples "
-        "incl. empty and with unhashable / tuple / empty-string values, ranges incl. empty, dicts) x iterations 1-3 x max_steps 0-6 x period "
-        "{-1, 1, 2, 3, 0}; number_processes 1 in the generated stream, 2 and 3 (spawn) in the built-in stream; non-trivial = some batch_run returned "
+        "stepping, model.agents reordered in place inside step in 12% of the classes; with and without agent reporters) x random parameter dicts (0-3 parameters: scalars incl. None and floats, strings, lists / tuples "
+        "incl. empty and with unhashable / tuple / empty-string values, ranges incl. empty, dicts, one-shot iterators / generators in 6% of the parameters) "
+        "x iterations 1-3 x max_steps 0-6 x period {-1, 1, 2, 3, 0, 7, 9, 50}; display_progress on in 15% of the runs; 5% of the model classes have reporters "
+        "that raise while an attribute is missing; number_processes 1 in the generated stream, 2 and 3 (spawn) in the built-in stream; non-trivial = some batch_run returned "
         ">= 2 rows; distinct = distinct op-line sequences (sha1)")
 
 run_impl = CC.run_impl
@@ -75,6 +83,8 @@ def tags(sc, obs):
             yield "max_steps:" + w[2]
             if w[0] == "runp":
                 yield "nproc:" + w[4]
+            if w[-1] == "prog":
+                yield "run:display_progress"
             if o == "ok":
                 yield "run:no-rows"
         elif w[0] == "kwargs":
@@ -87,6 +97,8 @@ def tags(sc, obs):
                 yield "model:may-stop-early"
         elif w[0] == "arep":
             yield "model:agent-reporters"
+        if w[0] in ("mrep", "arep") and ("req" in w or "lreq" in w):
+            yield "model:reporter-may-raise"
 
 
 if __name__ == "__main__":
